@@ -407,6 +407,21 @@ pub fn run(args: &Args) {
             finish(&ev);
         }
     }
+    // compact_adjacency() reports every compaction on stderr (tens of thousands of lines per
+    // run): silence fd 2 while the search runs, restore it for our own messages
+    let saved_err = unsafe { libc::dup(2) };
+    unsafe {
+        let devnull = libc::open(b"/dev/null\0".as_ptr() as *const libc::c_char, libc::O_WRONLY);
+        if devnull >= 0 && saved_err >= 0 {
+            libc::dup2(devnull, 2);
+            libc::close(devnull);
+        }
+    }
+    let restore_err = move || unsafe {
+        if saved_err >= 0 {
+            libc::dup2(saved_err, 2);
+        }
+    };
     let n = std::env::var("VERIF_CASES").ok().and_then(|s| s.parse().ok()).unwrap_or(args.tier.pick(6_000u32, 200_000u32));
     let survey = survey_limit();
     let evc = RefCell::new(&mut ev);
@@ -458,6 +473,7 @@ pub fn run(args: &Args) {
         }
     });
     drop(evc);
+    restore_err();
     if survey > 0 {
         SURVEY.with(|s| {
             for (i, m) in s.borrow().iter().enumerate() {
